@@ -750,7 +750,7 @@ Proof.
   - apply cntinv_do_push; auto.
   - apply cntinv_do_poll; auto.
   - apply cntinv_do_act; auto.
-  - destruct (observe k); auto; try (apply cntinv_emit; auto).
+  - destruct (observe P k); auto; try (apply cntinv_emit; auto).
   - auto.
   - apply cntinv_do_drop; auto.
   - unfold cleanup. apply cntinv_cleanup_from; auto.
